@@ -521,6 +521,129 @@ def check_hashing_header():
             "seed": int(ms.group(1), 16)}, [(rel, body), (rel2, ms.group(0)), (rel3, c)]
 
 
+# ---------------------------------------------------------------- tools, command classes, attributes (text level)
+CLASS_FILES = {  # classes declared outside BuildSystem.cpp: (declaration, out-of-line definitions)
+    "ShellCommand": ("include/llbuild/BuildSystem/ShellCommand.h", "lib/BuildSystem/ShellCommand.cpp"),
+    "ExternalCommand": ("include/llbuild/BuildSystem/ExternalCommand.h", "lib/BuildSystem/ExternalCommand.cpp"),
+}
+ROOT_CLASSES = ("Command", "Tool")      # pure-virtual configureAttribute: no attributes of their own
+OVERLOAD_KINDS = ("scalar", "list", "map")
+
+
+def overload_kind(params):
+    if "std::pair" in params:
+        return "map"
+    if "ArrayRef" in params:
+        return "list"
+    return "scalar"
+
+
+class ClassTable:
+    """`class C : public B { … }` blocks and their configureAttribute overloads (comment-stripped text)."""
+
+    def __init__(self):
+        self.main_rel = "lib/BuildSystem/BuildSystem.cpp"
+        self.main = strip_comments(read(self.main_rel))
+        self.texts = {self.main_rel: self.main}
+        self.cache = {}
+
+    def text(self, rel):
+        if rel not in self.texts:
+            self.texts[rel] = strip_comments(read(rel))
+        return self.texts[rel]
+
+    def info(self, cname):
+        """(base class, {kind: (names, delegate-or-None, accepts_anything)}) for the overloads the class defines"""
+        if cname in self.cache:
+            return self.cache[cname]
+        decl_rel, def_rel = CLASS_FILES.get(cname, (self.main_rel, None))
+        src = self.text(decl_rel)
+        ms = list(re.finditer(r"\bclass %s\s*(?:final\s*)?:\s*public\s+([\w:]+)\s*\{" % re.escape(cname), src))
+        if len(ms) != 1:
+            raise ExtractError("class %s: %d definitions found in %s" % (cname, len(ms), decl_rel))
+        base = ms[0].group(1).split("::")[-1]
+        body, _ = find_block(src, ms[0].end() - 1)
+        bodies = []
+        for m in re.finditer(r"\bconfigureAttribute\s*\(([^()]*)\)\s*(?:override\s*)?\{", body):
+            fb, _ = find_block(body, m.end() - 1)
+            bodies.append((overload_kind(m.group(1)), fb))
+        if def_rel:
+            dsrc = self.text(def_rel)
+            for m in re.finditer(r"\b%s::\s*configureAttribute\s*\(([^()]*)\)\s*\{" % re.escape(cname), dsrc):
+                fb, _ = find_block(dsrc, m.end() - 1)
+                bodies.append((overload_kind(m.group(1)), fb))
+        ovs = {}
+        for kind, fb in bodies:
+            if kind in ovs:
+                raise ExtractError("class %s: two %s configureAttribute overloads" % (cname, kind))
+            names = re.findall(r'\bname\s*==\s*"([^"]*)"', fb)
+            if len(re.findall(r"\bname\b\s*[=!]=", fb)) != len(names):
+                raise ExtractError("class %s: configureAttribute compares `name` in a shape that is not understood" % cname)
+            dels = set(re.findall(r"\b(\w+)::configureAttribute\s*\(", fb))
+            if len(dels) > 1 or (dels and dels != {base}):
+                raise ExtractError("class %s: configureAttribute delegates to %s (base is %s)" % (cname, sorted(dels), base))
+            # an overload that neither delegates nor reports "unexpected attribute" accepts (and ignores) every other name
+            anything = not dels and "unexpected attribute" not in fb
+            ovs[kind] = (names, base if dels else None, anything)
+        self.cache[cname] = (base, ovs)
+        return self.cache[cname]
+
+    def attributes(self, cname, kind):
+        """names accepted by overload `kind` of class cname (own + delegated / inherited), and whether it accepts anything"""
+        if cname in ROOT_CLASSES:
+            return [], False
+        base, ovs = self.info(cname)
+        if kind not in ovs:
+            return self.attributes(base, kind)
+        names, delegate, anything = ovs[kind]
+        if delegate:
+            more, any2 = self.attributes(delegate, kind)
+            return names + [n for n in more if n not in names], anything or any2
+        return list(names), anything
+
+    def signature_class(self, cname, found_by_cname):
+        seen = []
+        while cname not in found_by_cname:
+            if cname in ROOT_CLASSES or cname in seen:
+                raise ExtractError("no getSignature recipe up the inheritance chain of %s" % (seen[0] if seen else cname))
+            seen.append(cname)
+            cname = self.info(cname)[0]
+        return found_by_cname[cname]
+
+
+def tool_tables(found):
+    ct = ClassTable()
+    found_by_cname = {v[0]: cls for cls, v in found.items()}
+    body = function_body(ct.main, r"BuildSystemFileDelegate::lookupTool\(StringRef name\)")
+    pairs = re.findall(r'name\s*==\s*"([^"]+)"\s*\)\s*\{\s*return\s+llvm::make_unique<(\w+)>\(name\);', body)
+    if len(pairs) != len(re.findall(r"make_unique<", body)) or len(pairs) != len(re.findall(r'name\s*==', body)) or not pairs:
+        raise ExtractError("lookupTool: shape not understood")
+    tools, attrs, toolattrs = [], [], []
+    for tname, tcls in pairs:
+        tbase, _ = ct.info(tcls)
+        if tbase != "Tool":
+            raise ExtractError("tool class %s does not derive from Tool" % tcls)
+        ms = list(re.finditer(r"\bclass %s\b[^{]*\{" % tcls, ct.main))
+        tbody, _ = find_block(ct.main, ms[0].end() - 1)
+        cb = function_body(tbody, r"createCommand\(StringRef name\)\s*override")
+        mk = re.findall(r"make_unique<(\w+)>\(name\b", cb)
+        if len(mk) != 1 or len(re.findall(r"make_unique<", cb)) != 1:
+            raise ExtractError("%s::createCommand: shape not understood" % tcls)
+        ccls = mk[0]
+        tools.append((tname, ccls, ct.signature_class(ccls, found_by_cname)))
+        per = []
+        for kind in OVERLOAD_KINDS:
+            names, anything = ct.attributes(ccls, kind)
+            per.append((kind, names, anything))
+        attrs.append((tname, per))
+        tl = []
+        for kind in OVERLOAD_KINDS:
+            tl += [n for n in ct.attributes(tcls, kind)[0] if n not in tl]
+        toolattrs.append((tname, tl))
+    srcs = [(rel, txt) for rel, txt in ct.texts.items()]
+    return tools, attrs, toolattrs, srcs
+
+
 def run():
     model_src = open(os.path.join(os.environ.get("VERIF_LEAN", os.path.join(VERIF, "lean")), "LLBuild", "Model", "Signature.lean")).read()
     fields, methods, clss = lean_enum(model_src, "Field"), lean_enum(model_src, "Method"), lean_enum(model_src, "Cls")
@@ -590,6 +713,28 @@ def run():
         out.append("  | .%s => some %s" % (cls, cls))
     out.append("")
     out.append("def names : List (String × Cls) := [%s]" % ", ".join('("%s", .%s)' % (found[c][0], c) for c in found))
+    out.append("")
+    tools, attrs, toolattrs, tsrcs = tool_tables(found)
+    for rel, txt in tsrcs:
+        if rel not in [r for r, _ in sources]:
+            sources.append((rel, txt))
+    out.append("/-- built-in tools (`BuildSystemFileDelegate::lookupTool`): tool name, the command class its `createCommand`")
+    out.append("makes, and the class whose `getSignature()` such a command runs (nearest override up the inheritance chain) -/")
+    out.append("def tools : List (String × String × Cls) := [\n  %s]" % ",\n  ".join('("%s", "%s", .%s)' % t for t in tools))
+    out.append("")
+    out.append("/-- attribute names the command class of each tool compares `name` with in its `configureAttribute` overloads")
+    out.append("(own overloads plus the base-class overloads they delegate to); `inputs`, `outputs` and `description` are separate")
+    out.append("keys of the build file and are not listed -/")
+    out.append("def commandAttributes : List (String × List String) := [\n  %s]" % ",\n  ".join(
+        '("%s", [%s])' % (t, ", ".join('"%s"' % n for n in dict.fromkeys(n for _, names, _ in per for n in names))) for t, per in attrs))
+    out.append("")
+    out.append("/-- tools whose scalar `configureAttribute` overload neither delegates nor reports `unexpected attribute`: every other")
+    out.append("scalar attribute (also the ExternalCommand flags) is accepted and IGNORED -/")
+    out.append("def acceptsAnyScalarAttribute : List String := [%s]" % ", ".join('"%s"' % t for t, per in attrs if any(a for k, _, a in per if k == "scalar")))
+    out.append("")
+    out.append("/-- attributes of the tool itself (`tools:` section of the build file) -/")
+    out.append("def toolLevelAttributes : List (String × List String) := [\n  %s]" % ",\n  ".join(
+        '("%s", [%s])' % (t, ", ".join('"%s"' % n for n in names)) for t, names in toolattrs))
     out.append("")
     out.append("end LLBuild.Generated.Signature")
     return write_generated("SignatureRecipe", "\n".join(out), sources)
